@@ -88,3 +88,92 @@ pub fn h_c33_cf_cross_axis() {
     check("C33.cf_cross.none", displace_cf_row(x, &DisplaceData::None, sheet) == Some(x) && displace_cf_col(x, &DisplaceData::None, sheet) == Some(x));
     reach("C33.cf_cross");
 }
+
+// ------------------------------------------------------------------------------------------- C14
+/// insert k lines at p then delete those k lines: identity on every CF coordinate not pushed off the grid
+pub fn h_c14_cf_row_insert_delete() {
+    let sheet = any_u32();
+    let x = any_i32_in(1, LAST_ROW);
+    let p = any_i32_in(1, LAST_ROW);
+    let k = any_i32_in(1, LAST_ROW);
+    let y = displace_cf_row(x, &DisplaceData::Row { sheet, row: p, delta: k }, sheet);
+    check("C14.cf_row.insert_drops_nothing", y.is_some());
+    if let Some(y) = y {
+        assume(y <= LAST_ROW);
+        check("C14.cf_row.identity", displace_cf_row(y, &DisplaceData::Row { sheet, row: p, delta: -k }, sheet) == Some(x));
+    }
+    reach("C14.cf_row");
+}
+
+pub fn h_c14_cf_col_insert_delete() {
+    let sheet = any_u32();
+    let x = any_i32_in(1, LAST_COLUMN);
+    let p = any_i32_in(1, LAST_COLUMN);
+    let k = any_i32_in(1, LAST_COLUMN);
+    let y = displace_cf_col(x, &DisplaceData::Column { sheet, column: p, delta: k }, sheet);
+    check("C14.cf_col.insert_drops_nothing", y.is_some());
+    if let Some(y) = y {
+        assume(y <= LAST_COLUMN);
+        check("C14.cf_col.identity", displace_cf_col(y, &DisplaceData::Column { sheet, column: p, delta: -k }, sheet) == Some(x));
+    }
+    reach("C14.cf_col");
+}
+
+// ------------------------------------------------------------------------------------------- C15
+/// the permutation the property states for moving the block [b, b+n-1] by d
+fn block_move(x: i32, b: i32, n: i32, d: i32) -> i32 {
+    if b <= x && x < b + n { x + d }
+    else if d > 0 && b + n <= x && x < b + n + d { x - n }
+    else if d < 0 && b + d <= x && x < b { x + n }
+    else { x }
+}
+
+/// chain of single-row moves in the order move_rows_action issues them (last line first for d > 0)
+fn chain_rows(x: i32, b: i32, n: i32, d: i32, sheet: u32) -> Option<i32> {
+    let mut cur = Some(x);
+    let mut i = 0;
+    while i < n {
+        let line = if d > 0 { b + n - 1 - i } else { b + i };
+        cur = match cur { Some(v) => displace_cf_row(v, &DisplaceData::RowMove { sheet, row: line, delta: d }, sheet), None => None };
+        i += 1;
+    }
+    cur
+}
+
+fn chain_cols(x: i32, b: i32, n: i32, d: i32, sheet: u32) -> Option<i32> {
+    let mut cur = Some(x);
+    let mut i = 0;
+    while i < n {
+        let line = if d > 0 { b + n - 1 - i } else { b + i };
+        cur = match cur { Some(v) => displace_cf_col(v, &DisplaceData::ColumnMove { sheet, column: line, delta: d }, sheet), None => None };
+        i += 1;
+    }
+    cur
+}
+
+fn block_rows(maxn: i32) {
+    let sheet = any_u32();
+    let x = any_i32_in(1, LAST_ROW);
+    let b = any_i32_in(1, LAST_ROW);
+    let n = any_i32_in(1, maxn);
+    let d = any_i32_in(-LAST_ROW, LAST_ROW);
+    assume(d != 0 && b + n - 1 <= LAST_ROW && 1 <= b + d && b + n - 1 + d <= LAST_ROW);
+    check("C15.block_rows.permutation", chain_rows(x, b, n, d, sheet) == Some(block_move(x, b, n, d)));
+    reach("C15.block_rows");
+}
+
+fn block_cols(maxn: i32) {
+    let sheet = any_u32();
+    let x = any_i32_in(1, LAST_COLUMN);
+    let b = any_i32_in(1, LAST_COLUMN);
+    let n = any_i32_in(1, maxn);
+    let d = any_i32_in(-LAST_COLUMN, LAST_COLUMN);
+    assume(d != 0 && b + n - 1 <= LAST_COLUMN && 1 <= b + d && b + n - 1 + d <= LAST_COLUMN);
+    check("C15.block_cols.permutation", chain_cols(x, b, n, d, sheet) == Some(block_move(x, b, n, d)));
+    reach("C15.block_cols");
+}
+
+pub fn h_c15_cf_block_rows() { block_rows(2) }
+pub fn h_c15_cf_block_cols() { block_cols(2) }
+pub fn ht_c15_cf_block_rows3() { block_rows(3) }
+pub fn ht_c15_cf_block_cols3() { block_cols(3) }
